@@ -62,9 +62,13 @@ def sklb_case(ctx, rng):
     poses = [[fbits(rng) for _ in range(12)] for _ in range(n)]
     ver = rng.choice([1, 2])
     tag = havok.build_skeleton_tagfile(rng, bones, poses, extra=rng.random() < 0.8)
-    data = havok.build_sklb(ver, tag, rng)
+    # payload offsets across the 16-bit boundary: the old container stores it in 16 bits, the new one in 32
+    gap = None
+    if rng.random() < 0.2:
+        gap = rng.choice([65535 - 28, 65000, 30000]) if ver == 1 else rng.choice([65535 - 36, 65536 - 36, 65536, 70000, 200000, (1 << 20) + 4])
+    data = havok.build_sklb(ver, tag, rng, gap)
     f = ctx.write("s.sklb", data)
-    ctx.case(digest(data), n >= 2, ["sklb", "sklb-container:v%d" % ver, "sklb-bones:%s" % bucket(n)], sample=dict(bones=n, container=ver, first=bones[:3]))
+    ctx.case(digest(data), n >= 2, ["sklb", "sklb-container:v%d" % ver, "sklb-bones:%s" % bucket(n), "sklb-payload-offset:%s" % ("<64KiB" if len(data) - len(tag) < 65536 else ">=64KiB")], sample=dict(bones=n, container=ver, first=bones[:3]))
     rec = ctx.call("sklb.parse", f, input_bytes=len(data))
     if not ctx.check_mon(rec, len(data), files=[f]):
         return
@@ -94,20 +98,28 @@ def sklb_case(ctx, rng):
 
 def pbd_case(ctx, rng):
     n = rng.choice([1, 2, 3, 5, 8, 12])
-    bodies = rng.sample([101, 201, 301, 401, 501, 601, 701, 801, 901, 1001, 1101, 1201, 1301, 1401, 9104, 9204, 65535, 0], n)
+    large = rng.random() < 0.06
+    if large:
+        n = rng.choice([130, 300])
+        bodies = rng.sample(range(65536), n)
+    else:
+        bodies = rng.sample([101, 201, 301, 401, 501, 601, 701, 801, 901, 1001, 1101, 1201, 1301, 1401, 9104, 9204, 65535, 0], n)
     parent = {}
     for i, b in enumerate(bodies):
         parent[b] = -1 if i == 0 or rng.random() < 0.2 else bodies[rng.randrange(i)]
     bones = {}
     for b in bodies:
         names = []
-        for k in range(rng.choice([0, 1, 2, 3, 5])):
+        for k in range(rng.choice([0, 1, 2, 3, 5]) if not (large and b == bodies[0]) else rng.choice([129, 700])):
             names.append((("j_%s_%d" % (nm(rng, 1, 8), k)).encode(), [fbits(rng) for _ in range(12)]))
         bones[b] = names
     perm = list(range(n))
     if rng.random() < 0.5:
         rng.shuffle(perm)
-    data = assets.build_pbd(bodies, parent, bones, perm)
+    # blocks are located by their offsets alone: 4-aligned (as the game's files), packed back to back, or behind a lead-in of any length
+    align = rng.choice([4, 4, 2, 1])
+    lead = rng.randbytes(rng.choice([0, 0, 1, 2, 3, 7])) if align != 4 or rng.random() < 0.3 else b""
+    data = assets.build_pbd(bodies, parent, bones, perm, align, lead)
     f = ctx.write("p.pbd", data)
     rec = ctx.call("pbd.parse", f, input_bytes=len(data))
     if not ctx.check_mon(rec, len(data), residual=False, files=[f]):
@@ -117,8 +129,12 @@ def pbd_case(ctx, rng):
         ctx.violation("decode", dict(sub="valid_deformer_rejected"), dict(bodies=bodies), files=[f])
         return
     h = rec.value["handle"]
-    for frm in bodies:
-        for to in bodies + [4242]:
+    absent = next(x for x in (4242, 4244, 4246) if x not in bodies)
+    pairs = [(frm, to) for frm in bodies for to in bodies + [absent]]
+    if len(pairs) > 200:
+        pairs = rng.sample(pairs, 120) + [(bodies[0], absent), (bodies[-1], absent)] + [(bodies[i], bodies[0]) for i in range(1, 20)]
+    for frm, to in pairs:
+        if True:
             if frm == to:
                 continue
             if not assets.pbd_has_next_sibling(bodies, parent, frm):
@@ -127,7 +143,7 @@ def pbd_case(ctx, rng):
             exp = [(nmb.decode(), m) for b in chain for nmb, m in bones[b]]
             r = ctx.call("pbd.deform", h, frm, to, input_bytes=len(data))
             ctx.check_mon(r, len(data), files=[f])
-            ctx.case(digest(data, frm, to), len(chain) >= 1, ["pbd", "pbd-chain:%d" % min(len(chain), 4), "pbd-to:%s" % ("ancestor" if to in chain or parent.get(chain[-1]) == to else "other")],
+            ctx.case(digest(data, frm, to), len(chain) >= 1, ["pbd", "pbd-chain:%d" % min(len(chain), 4), "pbd-blocks:%s" % ("aligned" if align == 4 and len(lead) % 4 == 0 else "unaligned"), "pbd-bodies:%s" % bucket(n), "pbd-to:%s" % ("ancestor" if to in chain or parent.get(chain[-1]) == to else "other")],
                      sample=dict(bodies=bodies, parents=parent, query=(frm, to), chain=chain))
             if r.outcome == "none":
                 ctx.violation("decode", dict(sub="deform_none"), dict(query=(frm, to), chain=chain, parents=parent), files=[f])
@@ -140,7 +156,7 @@ def pbd_case(ctx, rng):
     r = ctx.call("pbd.deform", h, bodies[0], bodies[0])
     if r.ok:
         ctx.violation("decode", dict(sub="deform_same_body"), {}, files=[f])
-    r = ctx.call("pbd.deform", h, 4243, bodies[0])
+    r = ctx.call("pbd.deform", h, next(x for x in (4243, 4245, 4247) if x not in bodies), bodies[0])
     if r.ok:
         ctx.violation("decode", dict(sub="deform_unknown_body"), {}, files=[f])
     ctx.call("drop", h)
@@ -169,7 +185,7 @@ def f32(x):
 
 
 def tera_case(ctx, rng):
-    pos = [(rng.choice([0, 1, -1, 32767, -32768, rng.randint(-32768, 32767)]), rng.choice([0, -1, 32767, -32768, rng.randint(-32768, 32767)])) for _ in range(rng.choice([0, 1, 2, 9, 100]))]
+    pos = [(rng.choice([0, 1, -1, 32767, -32768, rng.randint(-32768, 32767)]), rng.choice([0, -1, 32767, -32768, rng.randint(-32768, 32767)])) for _ in range(rng.choice([0, 1, 2, 9, 100] + ([999, 1000, 1001, 1500, 10001] if rng.random() < 0.25 else [])))]
     canonical = rng.random() < 0.6
     if canonical:
         data = assets.build_tera(pos)
@@ -251,7 +267,7 @@ def sample_lgb(ctx):
 
 
 def bucket(n):
-    for b in (0, 1, 2, 8, 40, 100):
+    for b in (0, 1, 2, 8, 40, 100, 1000, 10000):
         if n <= b:
             return "<=%d" % b
-    return ">100"
+    return ">10000"
